@@ -15,7 +15,7 @@ META = dict(
                 'runs over contract stubs of everything implemented in C: LineJSON for the serializer (dumps = injective newline-free text, bytes-like under the orjson flag; loads its inverse), the incremental codec models of C17, '
                 'StreamCodec of C16 for gzip/zstd and file objects with short reads (the 64 KiB read boundary becomes a cut at a small size). Items are symbolic texts standing for serialized objects (any character, raw newline, quote, backslash, non-ASCII, astral). '
                 'Asserted: the loaded items equal the dumped items, in order, one per object; an empty source gives a file that loads to nothing; every compression setting; file object and custom open_obj.',
-    bounds=dict(quick='<= 2 objects of <= 1 symbolic character (3 objects of 0 characters), a short read at every byte position of the file (one obligation each for the uncompressed form, every 3rd position for compressed forms)',
+    bounds=dict(quick='<= 2 objects of <= 1 symbolic character (3 objects of 0 characters), short reads at c1 and c1+1 (a one-byte chunk after a partial line / partial character) for every byte position c1 of the file (one obligation each for the uncompressed form, every 3rd position for compressed forms)',
                 thorough='<= 3 objects, <= 2 characters each'),
     outside='orjson / json, CPython codecs, zlib / zstandard themselves (contract-stubbed, each validated against the real library at run start); lines=False mode; skip / ignore_error options',
     assumptions=['serializer contract: vp/stubs/linejson.py (validated on orjson and json with newline / quote / non-ASCII payloads)', 'codec models of C17, StreamCodec of C16, ShortReadFile of C18'],
@@ -100,7 +100,7 @@ def file_rt(p):
                 return fail(stage='dump_to_file', items=items, done=done)
             if p.get('open_obj') and (opened != [('x.json', 'wb')] or not wb.closed):
                 return fail(stage='dump_to_file', problem='open_obj protocol', opened=opened, closed=wb.closed)
-            f = shortread.ShortReadFile(data, [c1])
+            f = shortread.ShortReadFile(data, [c1, c1 + 1])     # ...c1 | one byte | rest
             if p.get('open_obj'):
                 source, kw2 = 'x.json', dict(open_obj=lambda name, mode, encoding=None: f)
             else:
